@@ -186,8 +186,31 @@ impl Cw20Scen {
         allow.sort();
         allowsp.sort();
         pallow.sort();
+        // C20 self-check of the three listings (for a few owners/spenders)
+        let mut pagediff: Vec<String> = vec![];
+        if let Some(d) = paging_audit("all_accounts", &|c, l| {
+            self.q::<AllAccountsResponse>(QueryMsg::AllAccounts { start_after: c, limit: l }).map(|r| r.accounts)
+        }) {
+            pagediff.push(d);
+        }
+        for o in self.pool.iter().take(3) {
+            if let Some(d) = paging_audit("all_allowances", &|c, l| {
+                self.q::<AllAllowancesResponse>(QueryMsg::AllAllowances { owner: o.to_string(), start_after: c, limit: l })
+                    .map(|r| r.allowances.iter().map(|a| format!("{}:{}", a.spender, a.allowance)).collect())
+            }) {
+                pagediff.push(d);
+            }
+            if let Some(d) = paging_audit("all_spender_allowances", &|c, l| {
+                self.q::<AllSpenderAllowancesResponse>(QueryMsg::AllSpenderAllowances { spender: o.to_string(), start_after: c, limit: l })
+                    .map(|r| r.allowances.iter().map(|a| format!("{}:{}", a.owner, a.allowance)).collect())
+            }) {
+                pagediff.push(d);
+            }
+        }
+        pagediff.dedup();
         format!(
-            "obs supply={} minter={} cap={} bal={} allow={} allowsp={} pallow={}",
+            "obs pagediff={} supply={} minter={} cap={} bal={} allow={} allowsp={} pallow={}",
+            pagediff.join(","),
             supply,
             mn,
             cap,
